@@ -342,7 +342,7 @@ func Exec(w *worlds.World, h History, o Opts) *Trace {
 	tr.Hist = h
 	fl := &flight{start: time.Now(), block: -1}
 	inFlight.Store(tr, fl)
-	defer inFlight.Delete(tr)
+	defer func() { inFlight.Delete(tr); noteExec(time.Since(fl.start)) }()
 	if o.KeepNode {
 		tr.Node = r.N
 	} else {
